@@ -13,6 +13,12 @@ CHECKS = {
  "C05": ("reference-model monitor: real index/slice/range/dict kernels vs CPython sequences over exhaustive small strings x boundary bounds and random triples; logical step cap for range",
          "All strings over a 6-symbol multi-byte alphabet up to a length bound x boundary indices, a boundary cross product of (start,end,step) and of range triples, plus random cases, executed against the real runtime and compared with CPython. Exploration.",
          "Trusts CPython's str/list/range; a single operation without result in 20 s is taken as non-terminating.", "5/C05"),
+ "C08": ("metamorphic monitor: span-erased AST of parse(x) vs parse(format_source(x)) in-process on grammar-generated files + repository/docs corpus",
+         "Thousands of generated files covering every AST node kind / optional field (feature-accounted) and every parseable corpus file are formatted by the real formatter; the output must parse to the same AST up to spans and three documented normalisations. Exploration of the generated space, not a proof about the formatter.",
+         "Trusts the Debug dump of the AST as a faithful rendering of the tree; normalisations: docstring whitespace, (A,B)=Tuple[A,B], ()=None.", "5/C08"),
+ "C09": ("metamorphic monitor: fmt(fmt(x)) == fmt(x), output hygiene from the output's own token spans, and real `incan fmt` / `--check` / `--diff` runs on scratch directories (bytes + mtime snapshots)",
+         "Same inputs as C08 (restricted to those whose formatted text parses): idempotence, exactly one final newline, no tab/trailing blank outside string tokens; CLI scenarios in file and directory mode. Exploration.",
+         "String extents are taken from the lexer under test run on the formatter's output; CLI scenarios assume a POSIX filesystem with ns mtimes.", "5/C09"),
 }
 WIP = "check not built yet in this round (work in progress; see DESIGN.md section 5 for the planned monitor)"
 ALL = ["C%02d" % i for i in range(1, 21)]
